@@ -63,8 +63,7 @@ func (p *ParserPlanner) jsonWithParams(str string, labels *map[string]string) (m
 	}
 	// every named label is set, as the ClickHouse planner does for the same stage
 	// (mapUpdate(labels, mapFromArrays(names, values))): to the value its path leads to, to "" when the
-	// path leads nowhere or the line as a whole is not a JSON document (the decoder stops after the first
-	// value: text after it, or a fault behind the last path, went unnoticed)
+	// path leads nowhere or the line as a whole is not a JSON document
 	found := make(map[string]string, len(pa))
 	if jx.Valid([]byte(str)) {
 		jpp := &jsonPathProcessor{labels: &found}
@@ -79,7 +78,33 @@ func (p *ParserPlanner) jsonWithParams(str string, labels *map[string]string) (m
 }
 
 func (j *jsonPathProcessor) process(dec *jx.Decoder, aheads []pathAhead) error {
-	switch dec.Next() {
+	next := dec.Next()
+	if next == jx.Object || next == jx.Array {
+		// an object or an array a path leads to is extracted as its JSON text, as the ClickHouse planner
+		// does (JSONExtractRaw); paths that go on are followed inside that text
+		var deeper []pathAhead
+		for _, a := range aheads {
+			if len(a.path) > 0 {
+				deeper = append(deeper, a)
+			}
+		}
+		if len(deeper) < len(aheads) {
+			raw, err := dec.Raw()
+			if err != nil {
+				return err
+			}
+			for _, a := range aheads {
+				if len(a.path) == 0 {
+					(*j.labels)[a.label] = raw.String()
+				}
+			}
+			if len(deeper) == 0 {
+				return nil
+			}
+			dec, aheads = jx.DecodeBytes(raw), deeper
+		}
+	}
+	switch next {
 	case jx.Object:
 		return j.processObject(dec, aheads)
 	case jx.Array:
